@@ -246,7 +246,7 @@ def _coef(rng: Rng, N, K):
         C = [[lev[k] + rng.dyadic(-1, 1, 6) for k in range(K)] for _ in range(N)]
         return C, kind
     if kind in ("tiny", "huge"):
-        f = Fraction(2) ** (-20 if kind == "tiny" else 20)
+        f = Fraction(2) ** (rng.choice([20, 30, 40]) * (-1 if kind == "tiny" else 1))
         return [[f * x for x in rng.dyadics(K, -6, 6, 3)] for _ in range(N)], kind
     if kind == "const":
         row = rng.dyadics(K, -4, 4, 3)
@@ -395,7 +395,7 @@ def gen_cases(rng: Rng, tier):
                 N = rng.randint(1, 4)
                 sub = rng.choice(["rand", "inspace", "inspace", "smoothish"])
                 pen = rng.choice([0, 0, Fraction(1, 2), 1, 4, Fraction(1, 2 ** 30), Fraction(2 ** 30), Fraction(1, 2 ** 40)]) if sub != "inspace" else 0
-                case = dict(kind=kind, defaults=defaults, short=short, penspell=rng.choice(["tuple", "list", "int", "float", "np", "array"]), lay=rng.choice(LAYOUTS), dim=1, nseg=nseg, deg=deg, t=[rs(x) for x in _grid(rng, m)], N=N, sub=sub,
+                case = dict(kind=kind, amp=rng.choice([0, 0, -40, -30, -20, 20, 40]), defaults=defaults, short=short, penspell=rng.choice(["tuple", "list", "int", "float", "np", "array"]), lay=rng.choice(LAYOUTS), dim=1, nseg=nseg, deg=deg, t=[rs(x) for x in _grid(rng, m)], N=N, sub=sub,
                             pen=rs(pen), Y=_S([rng.dyadics(m, -4, 4, 3) for _ in range(N)]),
                             G=_S([rng.dyadics(nseg + deg, -3, 3, 2) for _ in range(N)]), pts=rng.random() < 0.3)
                 if rng.random() < 0.5:
@@ -421,7 +421,7 @@ def gen_cases(rng: Rng, tier):
                 N = rng.randint(1, 2)
                 sub = rng.choice(["rand", "inspace"])
                 pen = rng.choice([0, 1, Fraction(1, 2)]) if sub != "inspace" else 0
-                case = dict(kind=kind, penspell=rng.choice(["tuple", "list", "array", "mixed0", "mixed1"]), lay=rng.choice(LAYOUTS), dim=2, nseg=nseg, deg=deg, t1=[rs(x) for x in _grid(rng, m1)],
+                case = dict(kind=kind, amp=rng.choice([0, 0, -40, -30, 30]), penspell=rng.choice(["tuple", "list", "array", "mixed0", "mixed1"]), lay=rng.choice(LAYOUTS), dim=2, nseg=nseg, deg=deg, t1=[rs(x) for x in _grid(rng, m1)],
                             t2=[rs(x) for x in _grid(rng, m2)], N=N, sub=sub, pen=rs(pen),
                             Y=_S([rng.dyadics(m1 * m2, -4, 4, 3) for _ in range(N)]),
                             G=_S([rng.dyadics((nseg + deg) ** 2, -3, 3, 2) for _ in range(N)]))
@@ -899,6 +899,8 @@ def _run_ps(case):
     nseg, deg = case["nseg"], case["deg"]
     K = nseg + deg
     pen = float(F(case["pen"]))
+    amp = 2.0 ** int(case.get("amp", 0))  # the curves are scaled by an exact power of two
+    out["amp"] = amp
     if case["dim"] == 1:
         t = np.array(fl(_Fv(case["t"])))
         B = _basis_bsplines(t, K, deg)
@@ -910,7 +912,10 @@ def _run_ps(case):
             Y = np.array(fl(_Fm(case["Y"])))
             if case["sub"] == "smoothish":
                 Y = np.cumsum(Y, axis=1) / 4
+        Y0 = Y
+        Y = Y * amp
         fd = DenseFunctionalData(DenseArgvals({"input_dim_0": t}), DenseValues(_lay(Y, case.get("lay", "C"))))
+        fd0 = DenseFunctionalData(DenseArgvals({"input_dim_0": t}), DenseValues(Y0.copy()))
         penalty = _spell(pen, 1, case.get("penspell", "tuple"))
         canon = (pen,)
         out["rank"] = int(np.linalg.matrix_rank(B))
@@ -925,7 +930,10 @@ def _run_ps(case):
             out["gamma"] = Gm.tolist()
         else:
             Y = np.array(fl(_Fm(case["Y"]))).reshape(-1, len(t1), len(t2))
+        Y0 = Y
+        Y = Y * amp
         fd = DenseFunctionalData(DenseArgvals({"input_dim_0": t1, "input_dim_1": t2}), DenseValues(_lay(Y, case.get("lay", "C"))))
+        fd0 = DenseFunctionalData(DenseArgvals({"input_dim_0": t1, "input_dim_1": t2}), DenseValues(Y0.copy()))
         penalty = _spell(pen, 2, case.get("penspell", "tuple"))
         canon = tuple(float(x) for x in penalty)
         out["rank"] = int(min(np.linalg.matrix_rank(B1), np.linalg.matrix_rank(B2)))
@@ -933,6 +941,8 @@ def _run_ps(case):
         out["cond"] = float(np.linalg.cond(BB @ BB.T)) if pen == 0 else 0.0
     out["K"] = K
     out["Y"] = Y.reshape(len(Y), -1).tolist()
+    if "gamma" in out:
+        out["gamma"] = (np.array(out["gamma"]) * amp).tolist()
     if case.get("irrmask") and case["dim"] == 1:
         from FDApy.representation.argvals import IrregularArgvals
         from FDApy.representation.functional_data import IrregularFunctionalData
@@ -969,6 +979,10 @@ def _run_ps(case):
             out["smooth_canon"] = fd.smooth(method="PS", penalty=canon, **kw).values.reshape(len(Y), -1).tolist()
             out["coefs_canon"] = fd.to_basis(penalty=canon, **kw).coefficients.tolist()
             out["pen_used"] = repr(penalty)
+            if amp != 1.0:
+                # the unchanged tree is scale-equivariant: op(a·X) == a·op(X) for a power of two
+                out["smooth_base"] = fd0.smooth(method="PS", penalty=penalty, **kw).values.reshape(len(Y), -1).tolist()
+                out["coefs_base"] = fd0.to_basis(penalty=penalty, **kw).coefficients.tolist()
             out["pen_all_zero"] = bool(all(float(x) == 0 for x in np.atleast_1d(np.asarray(penalty, dtype=float))))
             out["same_argvals"] = bool(bf.to_grid().argvals == fd.argvals)
         except Exception as e:
@@ -1490,14 +1504,23 @@ def _oracle_ps(case, impl):
     if "error" in impl:
         return [dict(clause="to_basis", entry="DenseFunctionalData.to_basis", msg=f"raised {impl['error']}")]
     Y = np.array(impl["Y"])
-    sc = _scale(Y)
+    own = lambda a: max(float(np.max(np.abs(np.asarray(a, dtype=float)))) if np.size(a) else 0.0, 1e-300)  # noqa: E731
+    sc = own(Y)  # everything is judged relative to the data's own scale (amplitudes 2^-40 … 2^40)
+    amp = impl.get("amp", 1.0)
+    for k_, kb in (("smooth", "smooth_base"), ("coefs", "coefs_base")):
+        if kb in impl:
+            a_, b_ = np.array(impl[k_], dtype=float) / amp, np.array(impl[kb], dtype=float)
+            if a_.shape != b_.shape or not np.all(np.abs(a_ - b_) <= 1e-12 * own(b_)):
+                vs.append(dict(clause="scale_equivariance", entry="DenseFunctionalData." + ("smooth" if k_ == "smooth" else "to_basis"),
+                               msg=f"curves scaled by {amp:g}: the result is not {amp:g} times the result for the unscaled curves "
+                                   f"(max relative deviation {float(np.max(np.abs(a_ - b_))) / own(b_):.3g})"))
     # loose when the normal matrix is ill-conditioned (pinv/lstsq lose digits), never looser than 1e-5
     tol = min(1e-5, max(1e-8, 1e-13 * impl.get("cond", 0.0)))
     if not _near(impl["tb_grid"], impl["smooth"], sc, tol):
         vs.append(dict(clause="to_basis_to_grid", entry="DenseFunctionalData.to_basis",
                        msg=f"to_basis().to_grid() differs from smooth(method='PS') with the same settings: max |Δ| = {np.abs(np.array(impl['tb_grid']) - np.array(impl['smooth'])).max():.3g}"))
     for k_, kc in (("smooth", "smooth_canon"), ("coefs", "coefs_canon")):
-        if kc in impl and not _near(impl[k_], impl[kc], _scale(impl[kc]), 1e-9):
+        if kc in impl and not _near(impl[k_], impl[kc], own(impl[kc]), 1e-9):
             vs.append(dict(clause="option_spelling", entry="DenseFunctionalData." + ("smooth" if k_ == "smooth" else "to_basis"),
                            msg=f"penalty={impl.get('pen_used')} does not give the result of the same penalty written as a tuple of floats: "
                                f"max |Δ| = {np.abs(np.array(impl[k_]) - np.array(impl[kc])).max():.3g}"))
@@ -1517,7 +1540,7 @@ def _oracle_ps(case, impl):
     if case["sub"] == "inspace" and impl.get("pen_all_zero", F(case["pen"]) == 0) and impl["rank"] == K and impl.get("cond", 1e30) < 1e10:
         if not _near(impl["tb_grid"], Y, sc, 1e-6):
             vs.append(dict(clause="exact_recovery", entry="DenseFunctionalData.to_basis", msg="a curve of the spline space is not returned exactly with zero penalty"))
-        if not _near(impl["coefs"], impl["gamma"], _scale(impl["gamma"]), 1e-6):
+        if not _near(impl["coefs"], impl["gamma"], own(impl["gamma"]), 1e-6):
             vs.append(dict(clause="exact_recovery", entry="DenseFunctionalData.to_basis", msg="the coefficients of a curve of the spline space are not recovered with zero penalty"))
     return vs
 
@@ -1565,7 +1588,7 @@ def classify(case, impl):
         tags += ["csv-header:" + case["hk"], "csv-loaded:" + str(impl.get("cls", impl.get("error"))), "csv-option:" + str(case.get("variant")),
                  "csv-ids:" + (str(case.get("idk")) if str(case.get("variant", "")).startswith("index") else "-")]
     elif k == "ps":
-        tags += [f"ps:{case['dim']}d-{case['sub']}", "ps-penalty:" + ("0" if F(case["pen"]) == 0 else ">0"), "ps-penalty-spelling:" + str(case.get("penspell"))]
+        tags += [f"ps:{case['dim']}d-{case['sub']}", "ps-amplitude:2^" + str(case.get("amp", 0)), "ps-penalty:" + ("0" if F(case["pen"]) == 0 else ">0"), "ps-penalty-spelling:" + str(case.get("penspell"))]
         if impl.get("rank", 99) < impl.get("K", 0):
             tags.append("ps:singular")
     return tags
